@@ -322,9 +322,11 @@ Proof. apply (C10_parse_sound 20). vm_compute. reflexivity. Qed.
    mutated texts.  The theorems below are (a) facts about the interpreter for EVERY grammar, (b) the name
    rules of the regenerated grammar = the specification functions of C10Ident.v, (c) implicit whitespace.
    Imports are kept inside a module: Peg.v and Grammar.v reuse short names (Ok, Seq, ...). *)
-Require Blots.Peg Blots.gen.Grammar Blots.proofs.PegGeneric Blots.proofs.PegPure Blots.proofs.PegIdent.
+Require Blots.Peg Blots.PegWf Blots.gen.Grammar Blots.proofs.PegGeneric Blots.proofs.PegPure Blots.proofs.PegIdent
+        Blots.proofs.PegShift Blots.proofs.PegLayout Blots.proofs.PegBlots.
 Module PegLayer.
-Import Blots.Peg Blots.gen.Grammar Blots.proofs.PegGeneric Blots.proofs.PegPure Blots.proofs.PegIdent.
+Import Blots.Peg Blots.PegWf Blots.gen.Grammar Blots.proofs.PegGeneric Blots.proofs.PegPure Blots.proofs.PegIdent.
+Import Blots.proofs.PegShift Blots.proofs.PegLayout Blots.proofs.PegBlots.
 Import Blots.C10Ident Blots.gen.IdentRules.
 
 (* (a1) more fuel never changes a result other than OutOfFuel — every grammar, every rule, every text.
@@ -446,4 +448,91 @@ Proof. vm_compute. reflexivity. Qed.
 Example peg_iffy_is_a_name :
   show_res grule_name (parse blots_grammar 200 PG_identifier "iffy") = "OK (identifier 0 4)"%string.
 Proof. vm_compute. reflexivity. Qed.
+
+(* (c1) POSITION INDEPENDENCE, every grammar: away from the very start of the input (where SOI holds), moving
+   the byte offset by d with the same remaining input and stack gives the same result with the final offset and
+   the spans of all produced pairs moved by d — "the same tree up to spans". *)
+Theorem C10_peg_position_independent : forall (R : Type) (g : grammar R) (d : N) f m a la e o o' s s',
+  rel R d o o' s s' -> (0 < pos s)%N -> rel_res R d o o' (run g f m a la e s) (run g f m a la e s').
+Proof. exact run_shift. Qed.
+Check C10_peg_position_independent : forall (R : Type) (g : grammar R) (d : N) f m a la e o o' s s',
+  rel R d o o' s s' -> (0 < pos s)%N -> rel_res R d o o' (run g f m a la e s) (run g f m a la e s').
+Print Assumptions C10_peg_position_independent.
+
+(* (c2) for EVERY grammar whose WHITESPACE is a silent ordered choice of single characters and that has no
+   COMMENT rule: `skip` over (blanks ++ t) at offset p ends in the state of `skip` over t at offset p + |blanks|. *)
+Theorem C10_peg_skip_absorbs_blanks : forall (R : Type) (g : grammar R) (w : R) c0 cs,
+  g_ws g = Some w -> g_comment g = None -> g_def g w = mkdef MSilent true (char_choice c0 cs) ->
+  forall f n la p b t k o,
+  S (List.length cs) + String.length (b ++ t) <= f -> String.length (b ++ t) < n ->
+  all_in (is_ws c0 cs) b = true ->
+  skip_with g n (call_with g (run g f)) NonAtomic la (mkst p (b ++ t)%string k o)
+  = skip_with g n (call_with g (run g f)) NonAtomic la (mkst (p + slen b)%N t k o).
+Proof. exact skip_absorbs. Qed.
+Check C10_peg_skip_absorbs_blanks : forall (R : Type) (g : grammar R) (w : R) c0 cs,
+  g_ws g = Some w -> g_comment g = None -> g_def g w = mkdef MSilent true (char_choice c0 cs) ->
+  forall f n la p b t k o,
+  S (List.length cs) + String.length (b ++ t) <= f -> String.length (b ++ t) < n ->
+  all_in (is_ws c0 cs) b = true ->
+  skip_with g n (call_with g (run g f)) NonAtomic la (mkst p (b ++ t)%string k o)
+  = skip_with g n (call_with g (run g f)) NonAtomic la (mkst (p + slen b)%N t k o).
+Print Assumptions C10_peg_skip_absorbs_blanks.
+
+(* (c3) LAYOUT for a non-atomic sequence x ~ y of such a grammar: additional blanks b between the two tokens
+   (right after what x consumed — where skip runs) change nothing but positions: if x ends at the same offset
+   with the same stack and pairs on the text with b inserted, then x ~ y gives on that text the result it gave
+   before with x's pairs unchanged and everything after the junction moved by |b|; failure, Panic and OutOfFuel
+   are preserved.  (0 < offset: not before the first byte of the input, where SOI is observable.) *)
+Theorem C10_peg_blanks_between_tokens : forall (R : Type) (g : grammar R) (w : R) c0 cs,
+  g_ws g = Some w -> g_comment g = None -> g_def g w = mkdef MSilent true (char_choice c0 cs) ->
+  forall f la x y (s sb s1 : st R) b,
+  run g f false NonAtomic la x s = Ok s1 ->
+  run g f false NonAtomic la x sb = Ok (mkst (pos s1) (b ++ rest s1)%string (stk s1) (out s1)) ->
+  all_in (is_ws c0 cs) b = true -> (0 < pos s1)%N ->
+  S (List.length cs) + String.length (b ++ rest s1) < f ->
+  layout_equiv R (slen b) (out s1) s sb
+               (run g (S f) false NonAtomic la (Seq x y) s) (run g (S f) false NonAtomic la (Seq x y) sb).
+Proof. exact seq_layout. Qed.
+Check C10_peg_blanks_between_tokens : forall (R : Type) (g : grammar R) (w : R) c0 cs,
+  g_ws g = Some w -> g_comment g = None -> g_def g w = mkdef MSilent true (char_choice c0 cs) ->
+  forall f la x y (s sb s1 : st R) b,
+  run g f false NonAtomic la x s = Ok s1 ->
+  run g f false NonAtomic la x sb = Ok (mkst (pos s1) (b ++ rest s1)%string (stk s1) (out s1)) ->
+  all_in (is_ws c0 cs) b = true -> (0 < pos s1)%N ->
+  S (List.length cs) + String.length (b ++ rest s1) < f ->
+  layout_equiv R (slen b) (out s1) s sb
+               (run g (S f) false NonAtomic la (Seq x y) s) (run g (S f) false NonAtomic la (Seq x y) sb).
+Print Assumptions C10_peg_blanks_between_tokens.
+
+(* ... and the regenerated grammar IS such a grammar (blank = " " | "\t"): the instance for gen/Grammar.v;
+   a changed WHITESPACE rule in grammar.pest breaks this proof. *)
+Theorem C10_peg_blots_blanks_between_tokens : forall f la x y (s sb s1 : st grule) b,
+  run blots_grammar f false NonAtomic la x s = Ok s1 ->
+  run blots_grammar f false NonAtomic la x sb = Ok (mkst (pos s1) (b ++ rest s1)%string (stk s1) (out s1)) ->
+  all_in blank b = true -> (0 < pos s1)%N ->
+  2 + String.length (b ++ rest s1) < f ->
+  layout_equiv grule (slen b) (out s1) s sb
+               (run blots_grammar (S f) false NonAtomic la (Seq x y) s)
+               (run blots_grammar (S f) false NonAtomic la (Seq x y) sb).
+Proof. exact blots_seq_layout. Qed.
+Check C10_peg_blots_blanks_between_tokens : forall f la x y (s sb s1 : st grule) b,
+  run blots_grammar f false NonAtomic la x s = Ok s1 ->
+  run blots_grammar f false NonAtomic la x sb = Ok (mkst (pos s1) (b ++ rest s1)%string (stk s1) (out s1)) ->
+  all_in blank b = true -> (0 < pos s1)%N ->
+  2 + String.length (b ++ rest s1) < f ->
+  layout_equiv grule (slen b) (out s1) s sb
+               (run blots_grammar (S f) false NonAtomic la (Seq x y) s)
+               (run blots_grammar (S f) false NonAtomic la (Seq x y) sb).
+Print Assumptions C10_peg_blots_blanks_between_tokens.
+
+(* (d) termination.  The regenerated grammar passes the computed well-formedness check (no left recursion, no
+   nullable repetition body, WHITESPACE not nullable); the fuel-sufficiency statement is kept as a Prop — NOT
+   proved; the PEG-* correspondence streams count OutOfFuel (0) with fuel 128 + 48 * bytes. *)
+Example peg_grammar_well_formed : wf_grammar blots_grammar all_grules grule_index = true.
+Proof. exact blots_grammar_wf. Qed.
+Definition fuel_sufficient_full : Prop :=
+  forall (R : Type) (g : grammar R) (rules : list R) (idx : R -> N),
+    (forall r, In r rules) -> (forall r r', idx r = idx r' -> r = r') ->
+    wf_grammar g rules idx = true ->
+    exists c, forall r text, parse g (c * (String.length text + 1) * List.length rules) r text <> OutOfFuel.
 End PegLayer.
